@@ -1206,7 +1206,8 @@ def replay(req):
     text = (str(req.get("obligation", "")) + " " + str(req.get("spec", ""))).lower()
     score = {s[0]: max([len(fn) for fn in s[2] + (s[0],) if fn.lower() in text] or [0]) for s in SCENARIOS}
     best = max(score.values())
-    chosen = [s for s in SCENARIOS if best and score[s[0]] == best] or list(SCENARIOS)      # most specific function name mentioned
+    # scenarios that mention the function or its module/class: the most specific one first, then every other one that matches at all
+    chosen = sorted([s for s in SCENARIOS if best and score[s[0]] > 0], key=lambda s: -score[s[0]]) or list(SCENARIOS)
     col = Collector("replay")
     notes = []
     for name, fn, _funcs in chosen:
